@@ -39,7 +39,7 @@ theorem done_stopped (s : Sender) (h : Done s) : Done s.beStopped.1 := by
 
 theorem done_resetAcked (s : Sender) (h : Done s) : Done s.resetAcked := by
   unfold Sender.resetAcked
-  cases s.err <;> cases hst : s.st <;> simp_all [Done, Sender.allAcked]
+  cases s.closed <;> cases s.err <;> cases hst : s.st <;> simp_all [Done, Sender.allAcked]
 
 theorem done_connError (s : Sender) (h : Done s) : Done s.connError := by
   unfold Sender.connError
